@@ -11,7 +11,8 @@
 (* and dc the array of unit ids read - independently - from the derived    *)
 (* data.  A unit id is <<k, w>> (base unit k, word w of transformation     *)
 (* indices applied so far); its exact integer payloads are CompUnits.tla.  *)
-(* One action per public method, with the arguments as action parameters;  *)
+(* A second object (an indexed sub-object the caller keeps) is part of the *)
+(* state.  One action per public method, with the arguments as parameters; *)
 (* read-only queries are stuttering actions.  The shape/index behaviour of *)
 (* every action is the operator of Composite.tla, applied to pc and to dc. *)
 (*                                                                         *)
@@ -27,9 +28,11 @@ CONSTANTS Classes,     \* subset of {"Polygon", "HPolygon", "Segment", "Tangent"
           MaxWord,     \* at most this many transformations applied to one unit
           MaxOps,      \* state-changing calls after the constructor
           MaxSize,     \* bound on the number of units of an object
-          WithQueries  \* FALSE: leave the (stuttering) query actions out of the emitted transition system
+          WithQueries, \* FALSE: leave the (stuttering) query actions out of the emitted transition system
+          Lean         \* TRUE (quick tier): one representative per family of argument combinations of item assignment
 
-VARIABLES cls, built, shape, pc, dc, nops, last
+VARIABLES cls, built, shape, pc, dc, nops, last,
+          held, hshape, hpc, hdc      \* a second object the caller keeps: tmp = obj[i] / sub = obj[a:b]
 
 C == INSTANCE Composite WITH MaxRank <- 2, DimVals <- 1..MaxSize, sx <- shape, st <- <<>>
 
@@ -49,7 +52,11 @@ InitObjs == { C!Obj(<<>>, <<B(1)>>),
               C!Obj(<<2, 2>>, <<B(1), B(2), B(3), B(4)>>),
               C!Obj(<<1, 2>>, <<B(3), B(1)>>),
               C!Obj(<<2, 1>>, <<B(2), B(4)>>) }
-Routes == {"array", "list", "object"}
+\* "negarray": the caller's array holds the representative -x for the units at odd flat positions
+Routes == {"array", "list", "object", "negarray"}
+HP == C!Obj(hshape, hpc)
+HD == C!Obj(hshape, hdc)
+KeepHeld == UNCHANGED <<held, hshape, hpc, hdc>>
 
 \* composite transformations applied to the object: cells are transformation indices
 TObjs(c) == LET z == IF c = "Polygon" THEN NTrans ELSE NIso
@@ -60,15 +67,19 @@ ReshapeTargets(n) == {s \in C!Shapes : C!Size(s) = n}
 Rev(c) == [i \in 1..Len(c) |-> c[Len(c) + 1 - i]]
 
 Init == /\ cls \in Classes /\ built = FALSE /\ shape = <<>> /\ pc = <<>> /\ dc = <<>> /\ nops = 0
+        /\ held = FALSE /\ hshape = <<>> /\ hpc = <<>> /\ hdc = <<>>
         /\ last = [a |-> "none"]
 
 Construct(route, X) ==
   /\ ~built /\ built' = TRUE
   /\ shape' = X.shape /\ pc' = X.cell /\ dc' = X.cell
-  /\ UNCHANGED <<cls, nops>>
-  /\ last' = [a |-> "construct", route |-> route, shape |-> X.shape, cell |-> X.cell]
+  /\ UNCHANGED <<cls, nops>> /\ KeepHeld
+  /\ last' = [a |-> "construct", route |-> route, shape |-> X.shape, cell |-> X.cell,
+              neg |-> IF route = "negarray" THEN {p \in 1..Len(X.cell) : p % 2 = 1} ELSE {}]
 
-Step == built /\ nops < MaxOps /\ nops' = nops + 1 /\ UNCHANGED <<cls, built>>
+StepH == built /\ nops < MaxOps /\ nops' = nops + 1 /\ UNCHANGED <<cls, built>>
+\* a call on the object never changes the object the caller holds
+Step == StepH /\ KeepHeld
 
 \* copy.copy(obj), copy.deepcopy(obj), type(obj)(obj)
 Copy(kind) ==
@@ -118,6 +129,65 @@ SetItem(i, src, as) ==
      /\ shape' = shape /\ pc' = C!SetItem(P, i, Y).cell /\ dc' = C!SetItem(D, i, Y).cell
      /\ last' = [a |-> "setitem", i |-> i, src |-> src, as |-> as, yshape |-> Y.shape, ycell |-> Y.cell]
 
+\* obj[key] = value with the other kinds of NumPy keys.  A key on the first axis resolves to the rows it
+\* selects (operators of Composite.tla); the value is one unit (broadcast) or one unit per selected cell.
+KeyRows(kind, n) ==
+  CASE kind = "neg" -> <<n - 1>>                                       \* obj[-1]
+    [] kind \in {"list", "intarray"} -> IF n > 1 THEN <<n - 1, 0>> ELSE <<0>>   \* obj[[n-1, 0]], obj[np.array([n-1, 0])]
+    [] kind = "mask" -> C!MaskRows([i \in 1..n |-> i % 2 = 1])          \* boolean mask: rows 0, 2, ..
+    [] kind = "step2" -> C!StepRows(0, n, 2)                            \* obj[::2]
+    [] kind = "reversed" -> C!StepRows(n - 1, -1, -1)                   \* obj[::-1]
+KeyKinds == {"neg", "list", "intarray", "mask", "step2", "reversed"}
+SetItemKey(kind, src) ==
+  LET n == Head(shape)
+      rows == KeyRows(kind, n)
+      ys == IF kind = "neg" THEN Tail(shape) ELSE <<Len(rows)>> \o Tail(shape)
+      Y == IF src = "unit" THEN C!Obj(<<>>, <<B(K)>>)
+           ELSE C!Obj(ys, [p \in 1..C!Size(ys) |-> B(((p + 2) % K) + 1)])
+      \* an integer key drops the axis: the value broadcasts to the item; other keys keep it
+      YY == IF kind = "neg" THEN C!Obj(<<1>> \o Tail(shape), C!BroadcastTo(Y, Tail(shape)).cell) ELSE Y
+  IN /\ Step /\ shape # <<>>
+     /\ src = "cells" => C!Size(ys) > 1
+     /\ C!CanSetRows(P, rows, YY)
+     /\ shape' = shape /\ pc' = C!SetRows(P, rows, YY).cell /\ dc' = C!SetRows(D, rows, YY).cell
+     /\ last' = [a |-> "setkey", kind |-> kind, rows |-> rows, src |-> src, yshape |-> Y.shape, ycell |-> Y.cell]
+
+\* obj[i, j] = unit (tuple of integers: partial when the rank is larger)
+SetItemTuple(ix) ==
+  LET Y == C!Obj(<<>>, <<B(K)>>)
+  IN /\ Step /\ Len(ix) = 2 /\ Len(shape) >= 2
+     /\ C!CanSetTuple(P, ix, Y)
+     /\ shape' = shape /\ pc' = C!SetTuple(P, ix, Y).cell /\ dc' = C!SetTuple(D, ix, Y).cell
+     /\ last' = [a |-> "settuple", ix |-> ix, yshape |-> Y.shape, ycell |-> Y.cell]
+
+\* tmp = obj[i]; obj[i] = obj[j]; obj[j] = tmp
+Swap(i, j) ==
+  /\ Step /\ shape # <<>> /\ i < j /\ j <= Head(shape) - 1
+  /\ shape' = shape /\ pc' = C!Swap(P, i, j).cell /\ dc' = C!Swap(D, i, j).cell
+  /\ last' = [a |-> "swap", i |-> i, j |-> j]
+
+\* tmp = obj[i] / sub = obj[a:b]: the caller keeps an indexed sub-object; it is an object of its own
+Hold(kind, a, b) ==
+  LET HPn == IF kind = "index" THEN C!Index(P, a) ELSE C!Slice(P, a, b)
+      HDn == IF kind = "index" THEN C!Index(D, a) ELSE C!Slice(D, a, b)
+  IN /\ StepH /\ ~held /\ shape # <<>> /\ a < b /\ b <= Head(shape)
+     /\ kind = "index" => b = a + 1
+     /\ held' = TRUE /\ hshape' = HPn.shape /\ hpc' = HPn.cell /\ hdc' = HDn.cell
+     /\ UNCHANGED <<shape, pc, dc>>
+     /\ last' = [a |-> "hold", kind |-> kind, lo |-> a, hi |-> b]
+\* obj[i] = tmp
+PutHeld(i) ==
+  /\ Step /\ held /\ C!CanSetItem(P, i, HP)
+  /\ shape' = shape /\ pc' = C!SetItem(P, i, HP).cell /\ dc' = C!SetItem(D, i, HD).cell
+  /\ last' = [a |-> "putheld", i |-> i]
+\* sub[0] = unit: the object it was taken from does not change
+SetHeld ==
+  LET Y == C!Obj(<<>>, <<B(K)>>)
+  IN /\ StepH /\ held /\ C!CanSetItem(HP, 0, Y)
+     /\ hpc' = C!SetItem(HP, 0, Y).cell /\ hdc' = C!SetItem(HD, 0, Y).cell
+     /\ UNCHANGED <<held, hshape, shape, pc, dc>>
+     /\ last' = [a |-> "setheld", ycell |-> Y.cell]
+
 \* type(obj)([obj, other]) with other = obj reversed
 Stack ==
   LET OP == C!Obj(shape, Rev(pc)) OD == C!Obj(shape, Rev(dc))
@@ -150,18 +220,37 @@ Queries(c) ==
                          "point_along", "base_point_coords_all_models"}
     [] c = "HPoint" -> {"projective_coords", "coords_all_models", "distance", "origin_to", "unit_tangent_towards"}
 Query(q) ==
-  /\ built /\ UNCHANGED <<cls, built, shape, pc, dc, nops>>
+  /\ built /\ UNCHANGED <<cls, built, shape, pc, dc, nops>> /\ KeepHeld
   /\ last' = [a |-> "query", q |-> q]
 
 Next ==
   \/ \E r \in Routes : \E X \in InitObjs : Construct(r, X)
   \/ \E kind \in {"copy", "deepcopy", "ctor"} : Copy(kind)
-  \/ \E TT \in TObjs(cls) : \E m \in C!Modes : Apply(TT, m)
+  \* for a single transformation the three modes coincide (theorem SpecialShapes of Composite.tla; C04 replays
+  \* all of them): one mode each here
+  \/ \E TT \in TObjs(cls) : \E m \in C!Modes :
+        /\ (TT.shape = <<>> => m = (IF TT.cell[1] = 1 THEN "elementwise" ELSE "pairwise"))
+        /\ Apply(TT, m)
   \/ \E s \in ReshapeTargets(Len(pc)) : Reshape(s)
   \/ Flatten
   \/ \E i \in 0..(MaxSize - 1) : Index(i)
   \/ \E a \in 0..1 : \E b \in 1..MaxSize : Slice(a, b)
-  \/ \E i \in 0..(MaxSize - 1) : \E src \in {"unit", "item", "row"} : \E as \in {"object", "array"} : SetItem(i, src, as)
+  \/ \E i \in 0..(MaxSize - 1) : \E src \in {"unit", "item", "row"} : \E as \in {"object", "array"} :
+        /\ Lean => (as = "array") = ((i + (IF src = "unit" THEN 0 ELSE 1)) % 2 = 1)
+        /\ SetItem(i, src, as)
+  \/ \E kind \in KeyKinds : \E src \in {"unit", "cells"} :
+        /\ Lean => (src = "cells") = (kind \in {"list", "mask", "reversed"})
+        /\ SetItemKey(kind, src)
+  \/ \E i, j \in 0..(MaxSize - 1) :
+        /\ Lean => (i = 0 /\ j = (IF Len(shape) >= 2 THEN shape[2] - 1 ELSE 0))
+        /\ SetItemTuple(<<i, j>>)
+  \/ \E i, j \in 0..(MaxSize - 1) :
+        /\ Lean => (i = 0 /\ shape # <<>> /\ j = Head(shape) - 1)
+        /\ Swap(i, j)
+  \/ \E a \in 0..(MaxSize - 1) : Hold("index", a, a + 1)
+  \/ \E a \in 0..1 : \E b \in 2..MaxSize : Hold("slice", a, b)
+  \/ \E i \in 0..(MaxSize - 1) : PutHeld(i)
+  \/ SetHeld
   \/ Stack
   \/ \E which \in {"rev", "unit", "pair"} : Combine(which)
   \/ \E dt \in {"complex128", "float32", "float64"} : AsType(dt)
@@ -173,11 +262,15 @@ Next ==
 IsId(x) == /\ x[1] \in 1..K /\ Len(x[2]) <= MaxWord /\ \A i \in 1..Len(x[2]) : x[2][i] \in Letters(cls)
 TypeOK == built => /\ Len(pc) = C!Size(shape) /\ Len(dc) = Len(pc) /\ Len(pc) <= MaxSize
                    /\ \A p \in 1..Len(pc) : IsId(pc[p]) /\ IsId(dc[p])
-\* the units read from the derived data are the units read from the primary data
-Coherent == dc = pc
+                   /\ held => /\ Len(hpc) = C!Size(hshape) /\ Len(hdc) = Len(hpc)
+                               /\ \A p \in 1..Len(hpc) : IsId(hpc[p]) /\ IsId(hdc[p])
+\* the units read from the derived data are the units read from the primary data - of the object and of
+\* the object the caller holds
+Coherent == dc = pc /\ hdc = hpc
 
-View == <<cls, built, shape, pc, dc, nops>>
-St == [cls |-> cls, built |-> built, shape |-> shape, pc |-> pc, n |-> nops]
+View == <<cls, built, shape, pc, dc, nops, held, hshape, hpc, hdc>>
+St == [cls |-> cls, built |-> built, shape |-> shape, pc |-> pc, n |-> nops, held |-> held, hshape |-> hshape, hpc |-> hpc]
 Emit == PrintT("EMIT " \o ToJson([from |-> St, act |-> last',
-                                   to |-> [cls |-> cls', built |-> built', shape |-> shape', pc |-> pc', n |-> nops']]))
+                                   to |-> [cls |-> cls', built |-> built', shape |-> shape', pc |-> pc', n |-> nops',
+                                           held |-> held', hshape |-> hshape', hpc |-> hpc']]))
 =============================================================================
